@@ -131,6 +131,10 @@ def main():
         else:
             mod.run(ctx)
     except tlc.TLCError as e:
+        if ctx.violations:
+            ctx.write_evidence("violation")
+            print("FAIL %s violations=%d (then: %s)" % (a.pid, ctx.violations, str(e)[:200]))
+            sys.exit(1)
         print("MACHINERY-FAILURE property=%s: %s" % (a.pid, e))
         ctx.write_evidence("machinery-failure")
         sys.exit(2)
@@ -148,6 +152,12 @@ def main():
                           {"kind": "exception-in-code-under-test", "traceback": traceback.format_exc()[-3000:]})
             ctx.write_evidence("violation")
             print("FAIL %s (exception inside the code under test)" % a.pid)
+            sys.exit(1)
+        if ctx.violations:
+            # violations of the property were already established and reported (each with its replay file) before the driver fell over
+            # on the state they left behind: the verdict stands
+            ctx.write_evidence("violation")
+            print("FAIL %s violations=%d (the driver stopped early: %s after the reported violations)" % (a.pid, ctx.violations, type(e).__name__))
             sys.exit(1)
         print("MACHINERY-FAILURE property=%s: driver crashed" % a.pid)
         ctx.write_evidence("machinery-failure")
